@@ -332,7 +332,7 @@ def rule_rounding(ctx):
                 d = x.a[1]
                 cols = {int(z.a[1].a[1].a[0]) for z in tm.walk(d) if z.op == "sub" and z.a[1].op == "tuple" and len(z.a[1].a) == 2 and z.a[1].a[1].op == "const" and z.a[0].op == "param" and "intervals" in z.a[0].a[0]}
                 is_pitch = any(z.op == "param" and "pitches" in z.a[0] for z in tm.walk(d))
-                rounded = d.op == "call" and call_name(d) == "np.round" and any(n == "decimals" and v.op == "glob" and v.a[0] == "transcription.N_DECIMALS" for n, v in d.a[2])
+                rounded = d.op == "call" and call_name(d) == "np.round" and (any(n == "decimals" and v.op == "glob" and v.a[0] == "transcription.N_DECIMALS" for n, v in d.a[2]) or (len(d.a[1]) == 2 and d.a[1][1].op == "glob" and d.a[1][1].a[0] == "transcription.N_DECIMALS"))
                 for kind, col in kinds.items():
                     if kind == "pitch" and is_pitch and "pitch" not in seen:
                         seen.add("pitch")
